@@ -736,3 +736,136 @@ pub fn replay_file(check: &'static dyn Check, file: &Value) -> i32 {
         }
     }
 }
+
+// ---------------------------------------------------------------------------
+// A check made of several engines/modes (e.g. C13 = E1 crash-point enumeration + E2 live recovery).
+
+pub struct CompositeCheck {
+    pub prop: &'static str,
+    pub engine: &'static str,
+    /// (part, weight): run index i goes to the part owning i % sum(weights)
+    pub parts: Vec<(&'static dyn Check, u64)>,
+    pub quick: (u64, u64),
+    pub thorough: (u64, u64),
+    pub level: &'static str,
+}
+
+impl CompositeCheck {
+    fn part_of_index(&self, index: u64) -> usize {
+        let total: u64 = self.parts.iter().map(|p| p.1).sum::<u64>().max(1);
+        let mut r = index % total;
+        for (i, (_, w)) in self.parts.iter().enumerate() {
+            if r < *w {
+                return i;
+            }
+            r -= *w;
+        }
+        0
+    }
+    fn part_of_plan(&self, plan: &Value) -> usize {
+        plan.get("part").and_then(|p| p.as_u64()).unwrap_or(0) as usize % self.parts.len().max(1)
+    }
+}
+
+impl Check for CompositeCheck {
+    fn id(&self) -> &'static str {
+        self.prop
+    }
+    fn engine(&self) -> &'static str {
+        self.engine
+    }
+    fn budget(&self, tier: Tier) -> (u64, Duration) {
+        match tier {
+            Tier::Quick => (self.quick.0, Duration::from_secs(self.quick.1)),
+            Tier::Thorough => (self.thorough.0, Duration::from_secs(self.thorough.1)),
+        }
+    }
+    fn gen_plan(&self, seed: u64, index: u64, tier: Tier) -> Value {
+        let i = self.part_of_index(index);
+        let mut plan = self.parts[i].0.gen_plan(seed, index, tier);
+        if let Some(o) = plan.as_object_mut() {
+            o.insert("part".to_string(), json!(i));
+        }
+        plan
+    }
+    fn execute(&self, plan: &Value, want_sample: bool) -> RunRecord {
+        let i = self.part_of_plan(plan);
+        let mut rec = self.parts[i].0.execute(plan, want_sample);
+        rec.probe(&format!("runs_of_part_{}_{}", i, self.parts[i].0.engine()));
+        rec
+    }
+    fn limits(&self, plan: Option<&Value>) -> ChildLimits {
+        match plan {
+            Some(p) => self.parts[self.part_of_plan(p)].0.limits(plan),
+            None => {
+                // the most generous of the parts
+                let mut l = ChildLimits::default();
+                for (p, _) in self.parts.iter() {
+                    let pl = p.limits(None);
+                    if pl.wall_timeout > l.wall_timeout {
+                        l.wall_timeout = pl.wall_timeout;
+                    }
+                    if pl.stack_bytes > l.stack_bytes {
+                        l.stack_bytes = pl.stack_bytes;
+                    }
+                }
+                l
+            }
+        }
+    }
+    fn shrink_arrays(&self) -> Vec<&'static str> {
+        let mut v = vec![];
+        for (p, _) in self.parts.iter() {
+            for a in p.shrink_arrays() {
+                if !v.contains(&a) {
+                    v.push(a);
+                }
+            }
+        }
+        v
+    }
+    fn abnormal_exit(&self, exit: &ExitKind, output: &str) -> Option<Violation> {
+        for (p, _) in self.parts.iter() {
+            if let Some(v) = p.abnormal_exit(exit, output) {
+                return Some(v);
+            }
+        }
+        None
+    }
+    fn meta(&self) -> Meta {
+        let mut m = self.parts[0].0.meta();
+        m.level = self.level;
+        for (p, _) in self.parts.iter().skip(1) {
+            let pm = p.meta();
+            for x in pm.real {
+                if !m.real.contains(&x) {
+                    m.real.push(x);
+                }
+            }
+            for x in pm.stubs {
+                if !m.stubs.contains(&x) {
+                    m.stubs.push(x);
+                }
+            }
+            for x in pm.assumptions {
+                if !m.assumptions.contains(&x) {
+                    m.assumptions.push(x);
+                }
+            }
+            for x in pm.fault_kinds {
+                if !m.fault_kinds.contains(&x) {
+                    m.fault_kinds.push(x);
+                }
+            }
+        }
+        m
+    }
+    fn extra_evidence(&self, records: &[RunRecord]) -> Option<Value> {
+        let rules: Vec<String> = self.parts.iter().map(|(p, w)| format!("[part weight {} — {}] {}", w, p.engine(), p.meta().rule)).collect();
+        let _ = records;
+        Some(json!({"rule": rules.join("  ||  ")}))
+    }
+    fn minimise_budget(&self, tier: Tier) -> u64 {
+        self.parts.iter().map(|(p, _)| p.minimise_budget(tier)).max().unwrap_or(100)
+    }
+}
